@@ -76,9 +76,9 @@ WORLD = {
                 mech=["bev", "bev", "bev", "ice"], steps=[60, 60, 30, 120, 300], nsteps=(30, 90), charging_thr=[20, 50],
                 extent_m=[300, 800, 1500]),
     "C19": dict(p_schedules=0.25, nv=(1, 6), ns=(1, 3), nb=(1, 2), nr=(5, 30), p_prices=0.5, p_rate=1.0, soc=[0.02, 0.1, 0.3, 0.6],
-                steps=[60, 60, 120, 300, 30, 45, 7], starts=[0, 86400 - 600, 86400 - 1800, 1234, 3600 * 8]),
+                steps=[60, 60, 120, 300, 30, 45, 7], starts=[0, 86400 - 600, 86400 - 1800, 1234, 3600 * 8, 1577836800 + 86400 - 900]),
     "C20": dict(nv=(1, 6), ns=(0, 2), nb=(1, 2), nr=(0, 30), p_schedules=1.0, p_human=0.8, nsteps=(60, 300),
-                steps=[900, 900, 600, 300, 61, 7, 120], starts=[0, 3600 * 8, 86400 - 600, 1234, 17 * 3600 + 13, 2 * 86400 + 23 * 3600]),
+                steps=[900, 900, 600, 300, 61, 7, 120], starts=[0, 3600 * 8, 86400 - 600, 1234, 17 * 3600 + 13, 2 * 86400 + 23 * 3600, 1577836800 + 5 * 3600 + 1200, 1583020800 + 22 * 3600]),
 }
 WORLD["C15"] = dict(nv=(0, 5), ns=(0, 3), nb=(0, 2), nr=(3, 30), nsteps=(8, 40), p_prices=0.5, p_price_full=1.0, p_schedules=0.3,
                     p_fleets=0.2, steps=[1, 7, 30, 60, 60, 61, 300, 900])
@@ -107,6 +107,10 @@ def make_plan(prop, seed):
         rs["ext_kinds"] = ["set_rate", "scale_rate"]
         mix = r.choice(["adv", "both"])
     elif prop == "C03":
+        rs["lazy"] = r.random() < 0.3
+        if r.random() < 0.3:
+            # the built-in dispatcher may then re-dispatch vehicles that are already on their way
+            spec["dispatcher"]["valid_dispatch_states"] = r.choice([["idle", "repositioning", "dispatchtrip"], ["idle", "repositioning", "dispatchbase", "reservebase"]])
         adv["p_double"] = 0.5
         if r.random() < 0.5:
             adv["kinds"] = ["DispatchTrip", "DispatchTrip", "Idle", "Reposition", "OutOfService", "DispatchStation", "DispatchBase", "ChargeStation", "ReserveBase"]
@@ -153,6 +157,8 @@ def make_plan(prop, seed):
         rs["p_ext"] = r.choice([0.0, 0.1])
     elif prop == "C17":
         rs["p_add_request"] = r.choice([0.0, 0.15, 0.3])
+        if r.random() < 0.3:
+            spec["dispatcher"]["valid_dispatch_states"] = r.choice([["idle", "repositioning", "dispatchtrip"], ["idle", "repositioning", "dispatchtrip", "dispatchbase"]])
         adv["p_double"] = 0.5
         rs["buggify"] = r.random() < 0.25
         mix = r.choice(["builtin", "adv", "both", "both"])
@@ -168,6 +174,7 @@ def make_plan(prop, seed):
         mix = r.choice(["both", "both", "adv"])
     elif prop == "C19":
         rs["log_events"] = True
+        rs["lazy"] = r.random() < 0.3
         rs["p_ext"] = r.choice([0.0, 0.2])
         mix = r.choice(["both", "both", "builtin"])
     elif prop == "C20":
